@@ -25,6 +25,7 @@ EXPLANATION = (
     "state that outlives a call of a node class (only in containers created by that call): ids name the original "
     "objects after a copy. P4 no module-level mutable object is stored in a link field. Isomorphism, "
     "independence and protocol coverage of the copy are NOT decided (behaviour of pickle/copy's C code)."
+    " Added in round 18: P1 refusing name == 'target' first cuts the __getattr__ re-entry for every name; P2 accepts a __setstate__ that stores each entry with object.__setattr__."
 )
 ASSUMPTIONS = ["pickle/copy probe __setstate__/__reduce_ex__/__deepcopy__ via getattr on an instance whose __dict__ is still empty",
                "object has no __getattr__, so super().__getattr__(name) raises AttributeError"]
@@ -48,13 +49,29 @@ def _setstate_form(f):
     updates = [c for c in walk_own(f.node) if isinstance(c, ast.Call) and norm(c.func) == "%s.__dict__.update" % f.selfname
                and len(c.args) == 1 and isinstance(c.args[0], ast.Name) and c.args[0].id in dict_names]
     bad = None
+    # `for items in (state, slotstate):` - a name that stands for both parts
+    for lp in [n for n in walk_own(f.node) if isinstance(n, ast.For)]:
+        if isinstance(lp.target, ast.Name) and isinstance(lp.iter, (ast.Tuple, ast.List)) and all(isinstance(e, ast.Name) for e in lp.iter.elts):
+            if any(e.id in dict_names for e in lp.iter.elts):
+                dict_names.add(lp.target.id)
+            if any(e.id in slot_names for e in lp.iter.elts):
+                slot_names.add(lp.target.id)
+    raw_loops = 0
     for lp in [n for n in walk_own(f.node) if isinstance(n, ast.For)]:
         it = lp.iter
         src = it.func.value if isinstance(it, ast.Call) and isinstance(it.func, ast.Attribute) and it.func.attr == "items" else None
         sets = [c for c in ast.walk(lp) if isinstance(c, ast.Call) and isinstance(c.func, ast.Name) and c.func.id == "setattr"
                 and c.args and norm(c.args[0]) == f.selfname]
+        raw = [c for c in lp.body if isinstance(c, ast.Expr) and isinstance(c.value, ast.Call) and norm(c.value.func) == "object.__setattr__"
+               and len(c.value.args) == 3 and norm(c.value.args[0]) == f.selfname]
+        if raw and not sets and isinstance(src, ast.Name) and (src.id in dict_names or src.id in slot_names) and isinstance(lp.target, ast.Tuple) \
+                and len(lp.target.elts) == 2 and [norm(a) for a in raw[0].value.args[1:]] == [norm(e) for e in lp.target.elts] and len(lp.body) == 1:
+            raw_loops += 1  # every entry stored under its own key with object.__setattr__: no __setattr__ of the class on the way
+            continue
         if not sets:
             continue
+        if isinstance(lp.iter, (ast.Tuple, ast.List)) and all(isinstance(e, ast.Name) for e in lp.iter.elts):
+            continue  # the outer `for items in (state, slotstate)`: judged at the inner loop
         if isinstance(src, ast.Name) and src.id in slot_names and src.id not in dict_names:
             continue
         if isinstance(src, ast.Name) and src.id in dict_names:
@@ -67,7 +84,7 @@ def _setstate_form(f):
     for n in walk_own(f.node):
         if isinstance(n, ast.Attribute) and isinstance(n.ctx, ast.Store) and not (isinstance(n.value, ast.Name) and n.value.id != f.selfname):
             return None
-    return True if updates else None
+    return True if (updates or raw_loops) else None
 
 
 def run(ctx):
@@ -100,7 +117,9 @@ def run(ctx):
                 tn, vals = tab
                 if c is tn and o is (not tab.pos):
                     excluded |= vals
-        missing = (links | {"__setstate__"}) - excluded
+        # `name == "target"` refused first cuts the re-entry at its root: a missing target then ends in AttributeError for every
+        # name, `__setstate__` included
+        missing = (links | ({"__setstate__"} if "target" not in excluded else set())) - excluded
         if missing:
             ctx.viol("P1", ga, cn.ast if cn.kind != "test" else cn.cond, "self.target is evaluated on a path where name may be %s: on an "
                      "instance without target (unpickling, deepcopy) __getattr__ re-enters itself without bound" % sorted(missing),
@@ -137,8 +156,8 @@ def run(ctx):
             if name == "__setstate__" and isinstance(mem, Func):
                 verdict = _setstate_form(mem)
                 if verdict is True:
-                    ctx.inst("P2", mem, mem.node, "__setstate__ restores the dict part with self.__dict__.update() (plain storage, no property or "
-                             "__setattr__ on the way)")
+                    ctx.inst("P2", mem, mem.node, "__setstate__ restores the dict part with self.__dict__.update() / object.__setattr__ per entry "
+                             "(plain storage, no __setattr__ of the class on the way)")
                     continue
                 if verdict is None:
                     ctx.extra.setdefault("undecided", []).append("P2: how %s.__setstate__ restores the state is not followed" % m)
